@@ -1513,15 +1513,14 @@ class ComputeGraph(MultiDiGraph):
         if label == "t":
             return label
         if label in self._node_names:
-            n = self._node_names[label]
-            if n == 0:
-                label_new = f"{label}_v1"
-            else:
-                label_new = f"{label}_v{n + 1}"
-            self._node_names[label] += 1
+            # count up until the derived label is not taken either (a user variable may be called `x_v1`)
+            label_new = label
+            while label_new in self._node_names:
+                self._node_names[label] += 1
+                label_new = f"{label}_v{self._node_names[label]}"
         else:
             label_new = label
-            self._node_names[label] = 0
+        self._node_names[label_new] = 0
         return label_new
 
     @staticmethod
